@@ -351,6 +351,62 @@ def r5_print_state_is_statement_scoped(ctx, rule="C01.R5"):
     ctx.require(rule, 5)
 
 
+def r9_truth_is_not_zero(ctx, rule="C01.R9"):
+    """`a condition is true iff its value is not zero`: the function the VM's JumpIfFalse uses to turn the
+    value in A into a bool looks at the value itself - each numeric variant has its own arm whose result
+    is the comparison `payload != 0` of that variant's payload with a zero constant, and the arm calls
+    nothing.  A test made on a converted value (rounded to a whole number: 0.25 is false; narrowed: a large
+    DOUBLE is an Overflow) changes which branch runs."""
+    prog = ctx.prog
+    one = ctx.anchor_method("Interpreter", "interpret_one")
+    from .c05 import _arm_regions
+    sw, regions = _arm_regions(prog, one, "::Instruction")
+    if "JumpIfFalse" not in regions:
+        raise CheckError("interpret_one has no arm for Instruction::JumpIfFalse")
+    cands = []
+    for b, t in mir.region_calls(one.body, regions["JumpIfFalse"]):
+        d = t.get("d")
+        if d and "Result<bool" in one.body.locals[d[0]]["ty"].replace("std::result::", "") and t["args"]:
+            p0 = mir.op_place(t["args"][0])
+            if p0 is not None and "Variant" in one.body.locals[p0[0]]["ty"]:
+                cands.append(t)
+    if len(cands) != 1:
+        raise CheckError("%s: JumpIfFalse arm: %d calls yielding Result<bool, _>" % (rule, len(cands)))
+    f = prog.fns.get(cands[0].get("res") or mir.callee_of(cands[0]))
+    if f is None or f.body is None:
+        raise CheckError("%s: the truth conversion of JumpIfFalse is not a workspace function" % rule)
+    body = f.body
+    pv = mir.Prov(body)
+    sws = [x for x in mir.enum_switches(prog, body) if x.adt.endswith("::Variant")]
+    numeric = ("VSingle", "VDouble", "VInteger", "VLong")
+    for v in numeric:
+        key = "%s:%s" % (rule, v)
+        if not sws or v not in sws[0].arms:
+            ctx.violation(rule, key, f.loc,
+                          "%s has no arm of its own for %s: the condition is decided on a converted value (or by a "
+                          "wildcard), not by comparing the %s payload with zero" % (f.path.split("::", 1)[1], v, v))
+            continue
+        region = mir.arm_region(body, sws[0].bb, sws[0].arms[v])
+        calls = [mir.callee_path(t).split("::")[-1] for _b, t in mir.region_calls(body, region)
+                 if not (t.get("cpath") or "").endswith(("Deref::deref",))]
+        cmp_ok = False
+        for b in region:
+            for st in body.blocks[b]["s"]:
+                if st["k"] == "assign" and st["r"]["k"] == "agg" and st["r"].get("adt") == "core::result::Result" \
+                        and st["r"].get("variant") == "Ok" and st["r"]["ops"]:
+                    o = mir.strip_all(pv.of_operand(st["r"]["ops"][0]))
+                    if o[0] == "bin" and o[1] == "Ne":
+                        sides = [mir.strip_all(o[2]), mir.strip_all(o[3])]
+                        payload = [x for x in sides if x[0] == "field" and mir.strip_all(x[1])[0] == "downcast"
+                                   and mir.strip_all(x[1])[2] == v]
+                        zero = [x for x in sides if x[0] == "const" and re.fullmatch(r"[-+]?0(\.0*)?(e0|E0)?(_?[fiu](8|16|32|64|128|size))?", str(x[1]))]
+                        cmp_ok = bool(payload) and bool(zero)
+        ctx.decide(cmp_ok and not calls, rule, key, f.loc, "%s: payload != 0, no call" % v,
+                   "the %s arm of %s does not decide by `payload != 0` alone (calls %s): the truth of a condition "
+                   "is computed from a converted value" % (v, f.path.split("::", 1)[1], calls))
+    ctx.require(rule, 4)
+
+
 def run(ctx):
     common.install(ctx)
     r1_dispatch(ctx)
@@ -366,3 +422,4 @@ def run(ctx):
     # READ v1, v2 / INPUT v1, v2 assign left to right: the values are written back in argument order
     from . import c03
     c03.r3_fifo(ctx, "C01.R8")
+    r9_truth_is_not_zero(ctx)
